@@ -405,6 +405,33 @@ pub fn run(tier: Tier) -> i32 {
             );
         }
     }
+    // ---- hooks-off legs -------------------------------------------------
+    let hooked_battery = crate::plain::battery_hooked();
+    let n_fresh = if tier.thorough() { 24 } else { 6 };
+    let fresh = crate::plain::battery_plain(n_fresh);
+    let mut fresh_distinct = BTreeMap::new();
+    for (name, outcome) in &hooked_battery {
+        let mut set: BTreeSet<&String> = BTreeSet::new();
+        for run in &fresh {
+            if let Some((_, o)) = run.iter().find(|(n, _)| n == name) {
+                set.insert(o);
+            }
+        }
+        acc.evaluations += fresh.len() as u64;
+        fresh_distinct.insert(name.clone(), set.len());
+        if set.len() > 1 {
+            acc.violation(
+                &format!("fresh-process-nondeterminism:{name}"),
+                "the hooks-off build gives different outcomes for the same inputs in different processes (sampled leg)",
+                || json!({"battery_case": name, "outcomes": set}),
+            );
+        } else if set.iter().next().map(|o| *o != outcome).unwrap_or(true) {
+            // hook transparency: same verdict with and without the hooks compiled in
+            util::machinery_error(&format!("hook transparency: battery case {name} differs between hooked build ({outcome}) and hooks-off build ({set:?})"));
+        }
+    }
+    c.extra.insert("fresh_process_leg".into(), json!({"processes": n_fresh, "distinct_outcomes_per_case": fresh_distinct, "note": "sampling over hash seeds; never the deciding step"}));
+    c.selftests.push("hook-transparency-battery".into());
     let (unhooked, hooked) = site_lint();
     c.extra.insert("per_configuration".into(), json!(per_config));
     c.extra.insert("unhooked_iteration_sites".into(), json!(unhooked));
